@@ -16,6 +16,11 @@ Theorem C18_refuted : ~ C18_statement.
 Proof. exact statement_refuted. Qed.
 Print Assumptions C18_refuted.
 
+(** the evaluator applied to the observed outputs (Extract/Cases.v) is the model *)
+Theorem C18_evaluator_full : forall p, y_emit_fast p = y_emit p.
+Proof. exact y_emit_fast_eq. Qed.
+Print Assumptions C18_evaluator_full.
+
 (* ---------------- names and forms (all declaration lists) ---------------- *)
 
 (** value bindings: exactly the exported constants, non-generic functions and variables, each under
@@ -69,6 +74,12 @@ Theorem C18_const_int_exact :
   forall z, parse_Z (print_Z z) = Some z.
 Proof. exact parse_print_Z. Qed.
 Print Assumptions C18_const_int_exact.
+
+(** strings of any bytes and any length: the quoted literal reads back as the string *)
+Theorem C18_const_string_exact :
+  forall x, parse_str (print_str x) = Some x.
+Proof. exact parse_print_str. Qed.
+Print Assumptions C18_const_string_exact.
 
 (** floats: a value a/2^k is bound exactly (whenever the model's exponent search answers) *)
 Theorem C18_const_float_partial :
